@@ -9,6 +9,7 @@ import (
 	"net/http/httptest"
 	"net/url"
 	"strings"
+	"sync"
 	"time"
 
 	"github.com/go-jose/go-jose/v3"
@@ -51,16 +52,9 @@ const (
 	debugCanary = "DEBUG-CANARY-9c2e"
 )
 
-var allowedTags = map[string]bool{"html": true, "head": true, "title": true, "body": true, "form": true, "input": true}
-
 func cacheHeadersOK(h map[string][]string) bool {
-	get := func(k string) string {
-		if v := h[k]; len(v) > 0 {
-			return v[0]
-		}
-		return ""
-	}
-	return get("Cache-Control") == "no-store" && get("Pragma") == "no-cache"
+	// the directive has to be there; further directives next to it are fine
+	return strings.Contains(strings.ToLower(strings.Join(h["Cache-Control"], ",")), "no-store") && strings.Contains(strings.ToLower(strings.Join(h["Pragma"], ",")), "no-cache")
 }
 
 func c20resp(c *run.Ctx) {
@@ -537,25 +531,19 @@ func c20Custom(c *run.Ctx) {
 	}
 }
 
-func foreignElements(n *html.Node) string {
-	if n == nil {
-		return "unparsable"
-	}
-	bad := ""
-	forms := 0
+// pageShape summarises the element structure of a parsed page: how often each element other than <input> occurs, and which
+// event-handler attributes exist.
+func pageShape(n *html.Node) (tags map[string]int, handlers map[string]bool) {
+	tags, handlers = map[string]int{}, map[string]bool{}
 	var walk func(*html.Node)
 	walk = func(x *html.Node) {
 		if x.Type == html.ElementNode {
-			if !allowedTags[x.Data] {
-				bad = x.Data
-			}
-			if x.Data == "form" {
-				forms++
+			if x.Data != "input" {
+				tags[x.Data]++
 			}
 			for _, a := range x.Attr {
-				k := strings.ToLower(a.Key)
-				if strings.HasPrefix(k, "on") && !(x.Data == "body" && k == "onload") {
-					bad = x.Data + "@" + a.Key
+				if k := strings.ToLower(a.Key); strings.HasPrefix(k, "on") {
+					handlers[x.Data+"@"+k] = true
 				}
 			}
 		}
@@ -563,11 +551,46 @@ func foreignElements(n *html.Node) string {
 			walk(c)
 		}
 	}
-	walk(n)
-	if bad == "" && forms != 1 {
-		bad = fmt.Sprintf("%d forms", forms)
+	if n != nil {
+		walk(n)
 	}
-	return bad
+	return
+}
+
+var (
+	c20BaseOnce     sync.Once
+	c20BaseTags     map[string]int
+	c20BaseHandlers map[string]bool
+)
+
+// foreignElements compares the page with the shape the SAME template produces for harmless values (rendered once per
+// process through fosite's own writer): a reflected value must not add an element or an event handler. Whatever the
+// template itself contains is fine, so a change of the template is not a finding.
+func foreignElements(n *html.Node) string {
+	if n == nil {
+		return "unparsable"
+	}
+	c20BaseOnce.Do(func() {
+		rec := httptest.NewRecorder()
+		fosite.WriteAuthorizeFormPostResponse("https://c20.example/cb", url.Values{"code": {"harmless"}, "state": {"harmless-state"}}, fosite.DefaultFormPostTemplate, rec)
+		doc, _ := html.Parse(strings.NewReader(rec.Body.String()))
+		c20BaseTags, c20BaseHandlers = pageShape(doc)
+	})
+	tags, handlers := pageShape(n)
+	for t, k := range tags {
+		if k > c20BaseTags[t] {
+			return t
+		}
+	}
+	for h := range handlers {
+		if !c20BaseHandlers[h] {
+			return h
+		}
+	}
+	if tags["form"] != c20BaseTags["form"] {
+		return fmt.Sprintf("%d forms", tags["form"])
+	}
+	return ""
 }
 
 func sortStrings(s []string) {
